@@ -18,7 +18,7 @@ fn main() {
     }
     if args[0] == "--c16-huge" {
         let e: i64 = args.get(1).and_then(|s| s.parse().ok()).unwrap_or(0);
-        exit(mc::widths::child_huge(e, args.get(2).map(|s| s == "1").unwrap_or(false)));
+        exit(mc::widths::child_huge(e, args.get(2).map(|s| s == "1").unwrap_or(false), args.get(3).and_then(|s| s.parse().ok()).unwrap_or(0)));
     }
     if args[0] == "--c17-child" {
         exit(mc::determinism::child_digest());
